@@ -243,6 +243,18 @@ def run_case(ck, rng, root, ci, tier):
     ck.count(f"weights={wmode}")
     samples = [G.make_sample(rng, field, n=max(sizes[k], N), extent_mode=ext[k], zrange=zr, edges=edges,
                              weights=wflags[k]) for k in range(4)]
+    if ci % 5 == 4:
+        # stratum: samples with repeated rows (bootstrap resamples, an object listed twice): every row is an object
+        for smp in samples:
+            n_ = len(smp["ra"])
+            pick_ = np.array([rng.randrange(n_) for _ in range(n_)])
+            # keep every patch populated: the first occurrence of each patch stays
+            keep_ = np.array(sorted({int(np.argmax(np.asarray(smp["patch"]) == p)) for p in set(np.asarray(smp["patch"]).tolist())}))
+            pick_[: len(keep_)] = keep_
+            for key in ("ra", "dec", "z", "w", "patch"):
+                if isinstance(smp.get(key), np.ndarray):
+                    smp[key] = smp[key][pick_]
+        ck.count("stratum=repeated-rows")
     rep = {"config": cfgkw, "kind": kind, "mode": mode, "field": {"ra": field["ra"].tolist(), "dec": field["dec"].tolist(),
            "base": field["base"]}, "samples": [{k: (None if v is None else np.asarray(v).tolist()) for k, v in s.items()
                                                 if k != "extent"} for s in samples]}
